@@ -76,7 +76,7 @@ func genCrud(r *gen.R, sess int) sched.Op {
 }
 
 func genScenario(r *gen.R) sched.Scenario {
-	kinds := []string{"crud", "crud", "session", "session", "wtx", "shared", "shared", "close", "direct", "stream", "endstart", "store", "store"}
+	kinds := []string{"crud", "crud", "session", "session", "wtx", "shared", "shared", "close", "direct", "stream", "endstart", "store", "store", "closequeue", "staleabort"}
 	kind := kinds[r.N(len(kinds))]
 	return genScenarioKind(r, kind)
 }
@@ -106,14 +106,63 @@ func genScenarioKind(r *gen.R, kind string) sched.Scenario {
 				s = []sched.Op{{Kind: "sstart", Sess: 1}, {Kind: "inc", Sess: 1}, {Kind: "scommit", Sess: 1}}
 			case a == 1:
 				s = []sched.Op{{Kind: []string{"inc", "fau", "ins", "ins3"}[r.N(4)]}}
+				if r.P(50) {
+					// a later commit of the same actor (it must succeed and persist, also after a failed store)
+					s = append(s, sched.Op{Kind: []string{"inc", "ins"}[r.N(2)]})
+				}
 			default:
 				for k := 1 + r.N(2); k > 0; k-- {
-					s = append(s, sched.Op{Kind: []string{"inc", "fau", "find", "ins"}[r.N(4)]})
+					s = append(s, sched.Op{Kind: []string{"inc", "fau", "find", "find", "cat", "ins"}[r.N(6)]})
 				}
 			}
 			sc.Actors = append(sc.Actors, s)
 		}
 		sc.FileStore = r.P(25)
+	case "closequeue":
+		// Engine.Close while writers are queued for the write token with different kinds of contexts:
+		// actor 1 holds the token (session transaction or direct locked Begin), actors 2.. wait, the
+		// last actor closes the engine (directed in schedGen)
+		sc.Sessions = 2
+		if r.P(60) {
+			sc.Actors = append(sc.Actors, []sched.Op{{Kind: "sstart", Sess: 1}, {Kind: []string{"scommit", "sabort", "send"}[r.N(3)], Sess: 1}})
+		} else {
+			sc.Actors = append(sc.Actors, []sched.Op{{Kind: "ebegin", Lock: true}, {Kind: []string{"ecommit", "eabort"}[r.N(2)]}})
+		}
+		ctxs := []string{"bg", "", "timeout"}
+		for k, nw := 0, 2+r.N(2); k < nw; k++ {
+			op := sched.Op{Kind: []string{"inc", "ins", "fau", "sstart", "ebegin"}[r.N(5)], Ctx: ctxs[(k+r.N(3))%3]}
+			switch op.Kind {
+			case "sstart":
+				op.Sess, op.Ctx = 2, "" // StartTransaction takes no context (it waits like Background)
+				sc.Actors = append(sc.Actors, []sched.Op{op, {Kind: "sabort", Sess: 2}})
+				continue
+			case "ebegin":
+				op.Lock = true
+				sc.Actors = append(sc.Actors, []sched.Op{op, {Kind: "eabort"}})
+				continue
+			}
+			sc.Actors = append(sc.Actors, []sched.Op{op})
+		}
+		sc.Actors = append(sc.Actors, []sched.Op{{Kind: "close"}})
+	case "staleabort":
+		// the window between a successful Commit and the (deferred) Abort of the same, finished
+		// transaction: actor 1 commits, actor 2 begins a write transaction, actor 1's stale Abort runs,
+		// actor 3 (a third writer) must stay blocked until actor 2 is done (directed in schedGen)
+		sc.Sessions = 2
+		a1 := []sched.Op{{Kind: "ebegin", Lock: true}, {Kind: []string{"ecommit", "ecommit", "eabort"}[r.N(3)]}, {Kind: "eabortstale"}}
+		if r.P(25) {
+			a1 = append(a1, sched.Op{Kind: "eabortstale"})
+		}
+		var a2 []sched.Op
+		if r.P(50) {
+			a2 = []sched.Op{{Kind: "sstart", Sess: 2}, {Kind: []string{"inc", "ins", "fau"}[r.N(3)], Sess: 2}, {Kind: "scommit", Sess: 2}}
+		} else {
+			a2 = []sched.Op{{Kind: "ebegin", Lock: true}, {Kind: "ecommit"}}
+		}
+		sc.Actors = [][]sched.Op{a1, a2, {{Kind: []string{"inc", "fau", "ins"}[r.N(3)]}}}
+		if r.P(30) {
+			sc.Actors = append(sc.Actors, []sched.Op{{Kind: "find"}})
+		}
 	case "session":
 		sc.Sessions = n
 		for a := 1; a <= n; a++ {
@@ -240,6 +289,19 @@ func genScenarioKind(r *gen.R, kind string) sched.Scenario {
 		default:
 			sc.Actors[1] = append(sc.Actors[1], sched.Op{Kind: "ins"})
 			sc.Actors[0] = append(sc.Actors[0], sched.Op{Kind: "sclose", Stream: 1})
+		}
+	}
+	// context kinds: a mix of Background, WithCancel and WithTimeout(30 s) contexts on the write calls
+	if r.P(35) {
+		for a := range sc.Actors {
+			for i := range sc.Actors[a] {
+				switch sc.Actors[a][i].Kind {
+				case "inc", "ins", "fau", "ins3", "upd0", "wtx", "ebegin":
+					if sc.Actors[a][i].Ctx == "" && r.P(50) {
+						sc.Actors[a][i].Ctx = []string{"bg", "timeout"}[r.N(2)]
+					}
+				}
+			}
 		}
 	}
 	// faults
@@ -371,10 +433,11 @@ func schedCaseOf(o *sched.Outcome, stream string) run.Case {
 	}
 	for _, s := range sc.Actors {
 		for _, op := range s {
-			if op.Kind == "estale" {
-				// API misuse outside the model's call vocabulary: monitors only
-				c.Tags = dedup(append(tags, "unmodelled:estale"))
-				c.Impl = `{"unmodelled":"estale"}`
+			if op.Kind == "estale" || op.Kind == "eabortstale" {
+				// Commit / Abort of a finished transaction: outside the model's call vocabulary (its
+				// direct-engine calls need a live handle): monitors only
+				c.Tags = dedup(append(tags, "unmodelled:"+op.Kind))
+				c.Impl = `{"unmodelled":"` + op.Kind + `"}`
 				return c
 			}
 		}
@@ -432,16 +495,53 @@ func schedGen(r *gen.R, idx int) []run.Case {
 		extra = schedThorough(r, idx)
 	}
 	sc := genScenario(r)
+	return append(extra, schedCase(sc, directedFor(r, sc)))
+}
+
+// directedFor gives the chooser of a generated scenario: random, or — for the kinds that aim at one
+// particular window — a directed prefix followed by random choices.
+func directedFor(r *gen.R, sc sched.Scenario) sched.Chooser {
 	var ch sched.Chooser = &sched.Rand{Next: r.N, Stay: 40 + r.N(50), Flt: 25}
-	if sc.Kind == "store" {
-		// actor 1 runs until it is parked inside the store write, then the others run as far as they can
-		steps := []sched.Directive{{Actor: 1, Until: []string{"store.enter", "store.exit", "commit.store"}[r.N(3)]}}
-		for a := 2; a <= len(sc.Actors); a++ {
+	n := len(sc.Actors)
+	var steps []sched.Directive
+	switch sc.Kind {
+	case "store":
+		// actor 1 runs until it is parked inside the store write (possibly with an injected store
+		// failure), then the others run as far as they can
+		at := []string{"store.enter", "store.exit", "commit.store"}[r.N(3)]
+		if sc.AllowStore && r.P(60) {
+			steps = []sched.Directive{{Actor: 1, Until: "commit.store"}, {Actor: 1, Fault: "storeFail"}}
+			if r.P(50) {
+				steps = append(steps, sched.Directive{Actor: 1, Until: "store.enter"})
+			}
+		} else {
+			steps = []sched.Directive{{Actor: 1, Until: at}}
+		}
+		for a := 2; a <= n; a++ {
 			steps = append(steps, sched.Directive{Actor: a, Until: "done"})
 		}
-		ch = &sched.Directed{Steps: steps, Then: ch}
+	case "closequeue":
+		if r.P(85) {
+			steps = []sched.Directive{{Actor: 1, Until: "op.start"}} // the holder has the token
+			for a := 2; a < n; a++ {
+				steps = append(steps, sched.Directive{Actor: a, Until: "done"}) // queued
+			}
+			steps = append(steps, sched.Directive{Actor: n, Until: "done"}) // Close
+		}
+	case "staleabort":
+		if r.P(85) {
+			steps = []sched.Directive{{Actor: 1, Until: "op.start"}, {Actor: 1, Until: "op.start"}, // Begin, Commit
+				{Actor: 2, Until: "op.start"}, // the second writer has its transaction
+				{Actor: 3, Until: "done"},     // a third writer queues
+				{Actor: 1, Until: "op.start"}, // the stale Abort
+				{Actor: 3, Until: "done"},     // must still be queued
+				{Actor: 2, Until: "done"}}
+		}
 	}
-	return append(extra, schedCase(sc, ch))
+	if len(steps) > 0 {
+		return &sched.Directed{Steps: steps, Then: ch}
+	}
+	return ch
 }
 
 func schedReplay(req string) string {
@@ -528,6 +628,42 @@ func corpusScenarios() ([]sched.Scenario, map[int][]sched.Directive) {
 			out = append(out, sc)
 			directed[len(out)-1] = []sched.Directive{{Actor: 1, Until: at}, {Actor: 2, Until: "done"}, {Actor: 3, Until: "done"}, {Actor: 1, Until: "done"}}
 		}
+	}
+	// a store failure while the others wait; the same actor then commits again (must succeed and persist)
+	for v := 0; v < 3; v++ {
+		sc := S("store", 0, false, []sched.Op{o("inc", 0), o("ins", 0)}, []sched.Op{o("find", 0), {Kind: "cat"}}, []sched.Op{o("fau", 0)})
+		sc.AllowStore = true
+		sc.FileStore = v == 2
+		out = append(out, sc)
+		fault := []string{"storeFail", "storePanic", "storeFail"}[v]
+		directed[len(out)-1] = []sched.Directive{{Actor: 1, Until: "commit.store"}, {Actor: 1, Fault: fault}, {Actor: 2, Until: "done"}, {Actor: 3, Until: "done"}, {Actor: 1, Until: "done"}}
+	}
+	// Engine.Close while writers are queued for the token held by a session transaction: one waits with
+	// context.Background(), one with a WithCancel context that is never cancelled, one with WithTimeout(30 s)
+	for v := 0; v < 2; v++ {
+		holder := []sched.Op{o("sstart", 1), o("scommit", 1)}
+		if v == 1 {
+			holder = []sched.Op{{Kind: "ebegin", Lock: true}, {Kind: "ecommit"}}
+		}
+		out = append(out, S("closequeue", 1, false, holder,
+			[]sched.Op{{Kind: "inc", Ctx: "bg"}}, []sched.Op{{Kind: "inc", Ctx: ""}}, []sched.Op{{Kind: "fau", Ctx: "timeout"}}, []sched.Op{{Kind: "close"}}))
+		directed[len(out)-1] = []sched.Directive{{Actor: 1, Until: "op.start"}, {Actor: 2, Until: "done"}, {Actor: 3, Until: "done"}, {Actor: 4, Until: "done"}, {Actor: 5, Until: "done"}}
+	}
+	// the stale Abort: A commits; B begins a write transaction (session / direct); A's Abort of its
+	// finished transaction runs; C must stay queued until B is done; B's commit must succeed
+	for v := 0; v < 3; v++ {
+		b := []sched.Op{o("sstart", 1), o("inc", 1), o("scommit", 1)}
+		if v == 1 {
+			b = []sched.Op{{Kind: "ebegin", Lock: true}, {Kind: "ecommit"}}
+		}
+		fin := "ecommit"
+		if v == 2 {
+			fin = "eabort"
+		}
+		out = append(out, S("staleabort", 1, false,
+			[]sched.Op{{Kind: "ebegin", Lock: true}, {Kind: fin}, {Kind: "eabortstale"}}, b, []sched.Op{o("inc", 0)}))
+		directed[len(out)-1] = []sched.Directive{{Actor: 1, Until: "op.start"}, {Actor: 1, Until: "op.start"}, {Actor: 2, Until: "op.start"},
+			{Actor: 3, Until: "done"}, {Actor: 1, Until: "done"}, {Actor: 3, Until: "done"}, {Actor: 2, Until: "done"}}
 	}
 	// client misuse: a finished transaction is committed again while others write
 	for i := 0; i < 6; i++ {
